@@ -81,7 +81,7 @@ def merge_if(ip, s, c):
 def _merge_if(ip, s, c, pc_aware):
     from .interp import _Return
     M = _models()
-    t = ip.truth(c)
+    t = ip.truth_lit(c)
     if isinstance(t, bool):
         ip.run_block(s.body if t else s.orelse)
         return
@@ -612,7 +612,7 @@ def _run_body_then_cut_dec(ip, s, inv, extra, modified, m0):
 
 
 def _for_with_invariant(ip, s, it, inv):
-    from .builtins_model import SymRange
+    from .builtins_model import SymRange, SymEnumerate
     from .interp import _Break, _Continue
     st = ip.st
     M = _models()
@@ -629,6 +629,10 @@ def _for_with_invariant(ip, s, it, inv):
             # len(range(lo, hi, step)) = ceil((hi - lo) / step) for hi > lo
             n = simp(z3.If(hi > lo, (hi - lo + (step - 1)) / step, 0))
             elem = lambda i: SV(simp(lo + step * i), 'int')
+    elif isinstance(it, SymEnumerate):
+        sq = ip.seq_view(it.seq)
+        n = simp(z3.Length(sq.e))
+        elem = lambda i: (SV(simp(it.start + i), 'int'), M.elem_value(ip, sq, i))
     else:
         sq = ip.seq_view(it)
         if sq is None:
